@@ -82,6 +82,15 @@ def rebuild_site(ctx: Ctx, fi: FunctionInfo, cls_fq: str, ordinal: int, source: 
         raise AnalysisError(f"{fi.fq}: construction #{ordinal} of {short} not found ({len(cons)} present) - rebuild site '{label}' vanished")
     c = cons[ordinal - 1]
     given = field_map(ctx, cls_fq, c)
+    # arguments through single-assignment locals (a refactoring may read the source's fields into temporaries first); the source record is
+    # whatever local the same-named fields are read from - its name is the repository's choice
+    from ..flow import inline as _inl
+    given = {k: _inl(v, fi) for k, v in given.items()}
+    bases = [v.value.id for k, v in given.items() if k not in overrides and isinstance(v, ast.Attribute) and v.attr == k and isinstance(v.value, ast.Name)]
+    if bases and len(set(bases)) == 1 and bases[0] != source:
+        new_source = bases[0]
+        overrides = {k: (w.replace(f"{source}.", f"{new_source}.") if isinstance(w, str) else w) for k, w in overrides.items()}
+        source = new_source
     for fname, default in fields:
         construct = f"{label}: field {fname}"
         if fname in overrides:
